@@ -27,6 +27,8 @@ type ExecResult struct {
 	Ops      []string
 	Trace    *Trace
 	Compared int // number of (query, answer) and (key, value) pairs compared between A and B
+	// BaseFailed: the base image (or a source snapshot) could not be made: a harness failure, not a skip
+	BaseFailed bool
 	// Outside: outcomes of a scenario whose blocks violate one BlockOK clause on purpose
 	Outside []string
 	// emptiedAt: system contract address -> number of the reverted block that had emptied it (K2)
@@ -455,14 +457,52 @@ func execScenario(sc *Scenario, opt lib.GenOptions, withTrace bool) *ExecResult 
 		u.Addrs = []felt.Felt{*lib.F(1), *lib.F(2), *lib.F(0x104), *lib.F(0xdead)}
 		u.Slots = []felt.Felt{*lib.F(3), *lib.F(0xbeef)}
 	}
-	line := newLine(hr, sc.NewState, opt)
-	a := newNode("A", sc.NewState)
-	r.Trace.newNode("A")
+	baseLen := 0
+	var line *Line
+	var a *Node
 	chain := []*lib.BlockSpec{}
+	if sc.Base != nil {
+		if sc.Base.err != nil {
+			r.Skipped = "base image: " + sc.Base.err.Error()
+			r.BaseFailed = true
+			return r
+		}
+		baseLen = sc.Base.Len
+		line = sc.Base.newLine(hr)
+		a = sc.Base.node("A")
+		r.Trace.bulkNode("A", sc.Base)
+		chain = append(chain, sc.Base.specs...)
+	} else {
+		line = newLine(hr, sc.NewState, opt)
+		a = newNode("A", sc.NewState)
+		r.Trace.newNode("A")
+	}
 	implicit := implicitClasses(sc)
+	reverted := false
+	// curBundles: the blocks node A should hold right now
+	curBundles := func() []*lib.Bundle { return line.cg.Bundles[:len(chain)] }
+	// afterOp: the per-operation event oracle of QueryEach scenarios
+	afterOp := func(when string) {
+		if !sc.QueryEach || len(chain) == 0 {
+			return
+		}
+		checkEventsTruth(r, a, u, probe, curBundles(), when, reverted)
+		h := uint64(len(chain) - 1)
+		lo := uint64(0)
+		if h > 3 && len(r.Ops)%2 == 0 {
+			lo = h - 3
+		}
+		r.Trace.query(a, lo, h, candidateBlooms(curBundles(), lo, h))
+	}
 
 	storeOn := func(n *Node, b *lib.Bundle, spec *lib.BlockSpec) error {
-		err := n.Store(b)
+		var err error
+		if n == a && sc.FinaliseA && spec != nil && (int(b.Block.Number)+sc.Case)%2 == 0 {
+			err = n.FinaliseOwn(b)
+			r.hit("A-finalised-the-block-itself")
+		} else {
+			err = n.Store(b)
+		}
 		r.Trace.store(n, b, spec, err)
 		return err
 	}
@@ -483,6 +523,7 @@ func execScenario(sc *Scenario, opt lib.GenOptions, withTrace bool) *ExecResult 
 			r.find("restart-fails", fmt.Sprintf("%s: writing the running filter snapshot failed: %v", where, err), nil)
 			return
 		}
+		r.Trace.restart(a, mode == 2, planPos%3 == 0)
 		if mode == 2 {
 			r.op("A.gracefulRestart (%s)", where)
 			r.hit("restart:graceful:" + strings.SplitN(where, " ", 2)[0])
@@ -492,36 +533,54 @@ func execScenario(sc *Scenario, opt lib.GenOptions, withTrace bool) *ExecResult 
 		}
 	}
 	u.ObsFrom = sc.ObsFrom
-	var snap *Line // source line at the first fork point
-	forkPoint := -1
-	if len(sc.Rounds) > 0 {
-		forkPoint = len(sc.Main) - sc.Rounds[0].Revert
+	u.LightLastUpdated = sc.Base != nil
+	// snaps: copies of the source line at the heights that later rounds fork from (taken when the line
+	// passes them; dropped when the line forks below them)
+	forkPoints := map[int]bool{}
+	{
+		h := baseLen + len(sc.Main)
+		for _, rd := range sc.Rounds {
+			k := rd.Revert
+			if k > h-baseLen {
+				k = h - baseLen
+			}
+			h -= k
+			forkPoints[h] = true
+			h += len(rd.Fork)
+		}
 	}
-	if forkPoint == 0 {
-		snap = line.CopyAtHead()
+	snaps := map[int]*Line{}
+	maybeSnap := func() {
+		if h := line.Height(); forkPoints[h] && snaps[h] == nil {
+			snaps[h] = line.CopyAtHead()
+		}
 	}
+	maybeSnap()
 	for i, spec := range sc.Main {
+		num := baseLen + i
 		b, err := line.Next(spec)
 		if err != nil {
 			parent := &felt.Zero
 			if h := line.cg.Head(); h != nil {
 				parent = h.Block.Hash
 			}
-			r.Trace.storeRefused(a, uint64(i), parent, spec, err)
-			r.Skipped = fmt.Sprintf("main block %d cannot be finalised: %v", i, err)
+			r.Trace.storeRefused(a, uint64(num), parent, spec, err)
+			r.Skipped = fmt.Sprintf("main block %d cannot be finalised: %v", num, err)
 			return r
 		}
-		if i+1 == forkPoint {
-			snap = line.CopyAtHead()
-		}
+		maybeSnap()
 		u.Add(b)
 		if err := storeOn(a, b, spec); err != nil {
-			r.rejected("A", fmt.Sprintf("main block %d", i), err)
+			r.rejected("A", fmt.Sprintf("main block %d", num), err)
 			return r
 		}
-		r.op("A.store main[%d] %s", i, specSummary(spec))
+		r.op("A.store main[%d] %s", num, specSummary(spec))
 		chain = append(chain, spec)
+		if num >= W-2 || i == len(sc.Main)-1 {
+			afterOp(fmt.Sprintf("after storing main block %d", num))
+		}
 	}
+	everClosed := len(chain) >= W
 	for ri, rd := range sc.Rounds {
 		if sc.Warm {
 			h, _ := a.BC.Height()
@@ -530,10 +589,9 @@ func execScenario(sc *Scenario, opt lib.GenOptions, withTrace bool) *ExecResult 
 			r.op("A.eventQueries")
 		}
 		k := rd.Revert
-		if k > len(chain) {
-			k = len(chain)
+		if k > len(chain)-baseLen {
+			k = len(chain) - baseLen
 		}
-		W := int(core.NumBlocksPerFilter)
 		crossed := sc.Warm && k > 0 && len(chain) > 0 && (len(chain)-1)/W > 0 && (len(chain)-1)/W != (len(chain)-k-1)/W
 		for j := 0; j < k; j++ {
 			restartA(fmt.Sprintf("before-revert of block %d", len(chain)-1), j == 0, 0)
@@ -553,6 +611,10 @@ func execScenario(sc *Scenario, opt lib.GenOptions, withTrace bool) *ExecResult 
 				return r
 			}
 			r.hit("revert-ok")
+			reverted = true
+			if n := len(chain) - 1; n%W == 0 || n%W == W-1 {
+				r.hit(fmt.Sprintf("revert-at-window-boundary:block%%W=%d", n%W))
+			}
 			if len(chain) == 1 {
 				r.hit("revert-genesis")
 			}
@@ -566,19 +628,30 @@ func execScenario(sc *Scenario, opt lib.GenOptions, withTrace bool) *ExecResult 
 				r.emptiedAt[sa] = uint64(len(chain) - 1)
 			}
 			chain = chain[:len(chain)-1]
+			afterOp(fmt.Sprintf("round %d after reverting block %d", ri, len(chain)))
 		}
 		p := len(chain)
 		// B: a node that never saw the reverted blocks
-		b := newNode(fmt.Sprintf("B%d", ri), sc.NewState)
-		r.Trace.newNode(b.Name)
-		for i := 0; i < p; i++ {
+		var b *Node
+		if sc.Base != nil {
+			b = sc.Base.node(fmt.Sprintf("B%d", ri))
+			r.Trace.bulkNode(b.Name, sc.Base)
+		} else {
+			b = newNode(fmt.Sprintf("B%d", ri), sc.NewState)
+			r.Trace.newNode(b.Name)
+		}
+		for i := baseLen; i < p; i++ {
 			if err := storeOn(b, line.cg.Bundles[i], chain[i]); err != nil {
 				r.rejected("B", fmt.Sprintf("prefix block %d", i), err)
 				return r
 			}
 		}
-		if ri == 0 && snap != nil && snap.Height() == p {
-			line = snap
+		if s := snaps[p]; s != nil && s.Height() == p {
+			line = s.CopyAtHead()
+		} else if sc.Base != nil {
+			r.Skipped = fmt.Sprintf("no source snapshot at fork point %d", p)
+			r.BaseFailed = true
+			return r
 		} else {
 			nl, err := line.ForkAt(p)
 			if err != nil {
@@ -587,14 +660,20 @@ func execScenario(sc *Scenario, opt lib.GenOptions, withTrace bool) *ExecResult 
 			}
 			line = nl
 		}
+		for h := range snaps {
+			if h > p {
+				delete(snaps, h)
+			}
+		}
 		restartA("before-compare after the reverts", false, 0)
 		checkReverseDiff(r, a, chain, fmt.Sprintf("round %d after the reverts", ri))
 		compareNodes(r, a, b, u, fmt.Sprintf("round %d after reverting %d block(s) to height %d", ri, k, p), sc.NewState, implicit, false)
-		r.Trace.checkpoint(a, u, !sc.LightModel && len(rd.Fork) == 0 && ri == len(sc.Rounds)-1)
+		r.Trace.checkpoint(a, u, !sc.LightModel && len(rd.Fork) == 0 && ri == len(sc.Rounds)-1, sc.Base != nil && ri == 0 && sc.FullBaseDump)
 		if sc.Restart {
 			restartCompare(r, a, b, line, u, sc.NewState, fmt.Sprintf("round %d after the reverts", ri))
 		}
-		if sc.Kind == "window" {
+		if everClosed && len(chain) < W {
+			// window 0 was completed and is open again: its persisted copy must be gone (702b167)
 			if _, err := core.GetAggregatedBloomFilter(a.DB, 0, core.NumBlocksPerFilter-1); err != nil {
 				r.hit("reopened-window-dropped")
 			} else {
@@ -613,6 +692,7 @@ func execScenario(sc *Scenario, opt lib.GenOptions, withTrace bool) *ExecResult 
 				r.Skipped = fmt.Sprintf("round %d fork block %d cannot be finalised: %v", ri, j, err)
 				return r
 			}
+			maybeSnap()
 			u.Add(bd)
 			errB := storeOn(b, bd, spec)
 			if errB != nil {
@@ -659,12 +739,16 @@ func execScenario(sc *Scenario, opt lib.GenOptions, withTrace bool) *ExecResult 
 				return r
 			}
 			chain = append(chain, spec)
+			if len(chain) >= W {
+				everClosed = true
+			}
+			afterOp(fmt.Sprintf("round %d after storing fork block %d", ri, len(chain)-1))
 		}
 		if len(rd.Fork) > 0 {
 			restartA("before-compare after the fork", false, 0)
 			checkReverseDiff(r, a, chain, fmt.Sprintf("round %d after the fork", ri))
 			compareNodes(r, a, b, u, fmt.Sprintf("round %d after following the fork to height %d", ri, len(chain)), sc.NewState, implicit, crossed)
-			r.Trace.checkpoint(a, u, !sc.LightModel && ri == len(sc.Rounds)-1)
+			r.Trace.checkpoint(a, u, !sc.LightModel && ri == len(sc.Rounds)-1, false)
 		}
 		if sc.Restart {
 			restartCompare(r, a, b, line, u, sc.NewState, fmt.Sprintf("round %d", ri))
@@ -806,6 +890,22 @@ func specFeatures(s *lib.BlockSpec, before []*lib.BlockSpec) []string {
 	}
 	if len(d.Nonces) > 0 {
 		out = append(out, "nonce")
+	}
+	// several entries in one section (an implementation that handles the first / the last one right only)
+	if len(d.ReplacedClasses) >= 2 {
+		out = append(out, "replace-class>=2-entries")
+	}
+	if len(d.Nonces) >= 2 {
+		out = append(out, "nonce>=2-entries")
+	}
+	if len(d.DeployedContracts) >= 2 {
+		out = append(out, "deploy>=2-entries")
+	}
+	if len(d.StorageDiffs) >= 2 {
+		out = append(out, "storage>=2-addresses")
+	}
+	if len(d.DeclaredV0Classes)+len(d.DeclaredV1Classes) >= 2 {
+		out = append(out, "declare>=2-entries")
 	}
 	if len(d.DeclaredV0Classes) > 0 {
 		out = append(out, "declare-cairo0")
